@@ -1,7 +1,7 @@
 """Shared driver for the properties decided on the DAG engine (C02-C05, C17)."""
 
 
-def drive(rep, prop, *, make_scn, judge, n_sim, n_real, real_first=True):
+def drive(rep, prop, *, make_scn, judge, n_sim, n_real, real_first=True, handles_spin=False):
     """make_scn(rng, real: bool) -> scenario; judge(rep, scn, out) -> nontrivial bool."""
     from vlab import engine
     from vlab.dagcommon import scenario_rng, scn_key, scn_summary
@@ -13,7 +13,7 @@ def drive(rep, prop, *, make_scn, judge, n_sim, n_real, real_first=True):
         rng = scenario_rng(rep.seed, prop + kind, j)
         scn = make_scn(rng, kind == 'real')
         out = engine.run_dag(scn)
-        if getattr(out, 'aborted', None):
+        if getattr(out, 'aborted', None) and not (out.aborted.startswith('spin') and handles_spin):
             rep.inconclusive(f'harness abort: {out.aborted[:200]}', {'scenario': scn})
             continue
         nontrivial = judge(rep, scn, out)
